@@ -18,8 +18,10 @@ package main
 import (
 	"fmt"
 	"net"
+	"os"
 	"strconv"
 	"strings"
+	"time"
 
 	sadns "github.com/bokysan/socketace/v2/internal/streams/dns"
 	"github.com/bokysan/socketace/v2/internal/streams/dns/commands"
@@ -37,6 +39,38 @@ func (dfComp) Exec(op string) (string, string, string, bool) {
 	case strings.HasPrefix(op, "srv "):
 		res, mon, class, nt := dsExec("dnsfuzz", "srv ", strings.TrimPrefix(op, "srv "))
 		return res, mon, "srv:" + class, nt
+	case strings.HasPrefix(op, "net "):
+		// net <udp|tcp> <line>: the same line through a real socket to the real communicator's miekg server
+		rest := strings.TrimPrefix(op, "net ")
+		sp := strings.IndexByte(rest, ' ')
+		if sp < 0 || (rest[:sp] != "udp" && rest[:sp] != "tcp") {
+			return "bad-op", "", "bad", false
+		}
+		network, line := rest[:sp], rest[sp+1:]
+		if os.Getenv("VERIF_DNS_NETCHILD") != network {
+			t0 := time.Now()
+			res, mon := dsNetChild("dnsfuzz", network, line)
+			if strings.Contains(res, "HUNG") || strings.Contains(res, "LOST") {
+				// a stalled machine (miekg closes an idle TCP connection after 8 s): once more before it counts
+				res, mon = dsNetChild("dnsfuzz", network, line)
+			}
+			if os.Getenv("VERIF_DNS_NETTRACE") != "" {
+				fmt.Fprintf(os.Stderr, "net %s %d ops %.1fs: %.150s | %s\n", network, len(strings.Fields(line)), time.Since(t0).Seconds(), res, mon)
+			}
+			return res, mon, "net:" + network, !strings.HasPrefix(res, "PANIC") && res != "HUNG"
+		}
+		dsNetwork = network
+		defer func() { dsNetwork = "" }()
+		dsNetLate = 0
+		res, mon, class, nt := dsExec("dnsfuzz", "", line)
+		if dsNetDrain(); dsNetLate > 0 {
+			// answers to queries for which onMessage returned an error
+			res += fmt.Sprintf(" +unexpected-answers:%d", dsNetLate)
+		}
+		if mon != "" {
+			res += dsNetMonSep + mon // the parent splits it off again (one line per op on the child's stdout)
+		}
+		return res, "", "net:" + class, nt
 	case strings.HasPrefix(op, "cli "):
 		return dfCli(strings.TrimPrefix(op, "cli "))
 	case strings.HasPrefix(op, "dec "), strings.HasPrefix(op, "enc "):
@@ -47,7 +81,9 @@ func (dfComp) Exec(op string) (string, string, string, bool) {
 
 func dfParseRecords(toks []string, qname string) ([]dns.RR, bool) {
 	var rrs []dns.RR
-	hdr := func(t uint16) dns.RR_Header { return dns.RR_Header{Name: qname, Rrtype: t, Class: dns.ClassINET, Ttl: 1} }
+	hdr := func(t uint16) dns.RR_Header {
+		return dns.RR_Header{Name: qname, Rrtype: t, Class: dns.ClassINET, Ttl: 1}
+	}
 	for _, t := range toks {
 		f := strings.Split(t, ":")
 		bad := func(n int) bool { return len(f) != n }
@@ -898,5 +934,167 @@ func (dfComp) Gen(r *Rand, tier string, emit func(string)) {
 			}
 		}
 		emit(c.line())
+	}
+
+	// ---------------- the communicator's handler (everything between the socket and onMessage and back)
+	dfHandlerGen(NewRand(r.Next()), tier, doms, emit)
+}
+
+// dfLookupLabels: what a resolver, crawler or monitoring probe asks a zone -- every command letter in both cases
+// alone, followed by one character, by two characters that are no base-36 number, by a well-formed user id of a
+// session that does not exist / that exists, and ordinary host names that happen to start with a command letter
+func dfLookupLabels() []string {
+	ls := []string{"", "www", "mail", "ns1", "ftp", "cdn", "vpn", "old", "run", "zone", "CDN", "Vpn", "_dmarc", "o1", "api", "smtp", "x", "host-7", "xn--bcher-kva",
+		"c.d", "v.o.r", "a.b.c.d.e", "*"}
+	for _, c := range "vlorYzmceVLORyZMCE" {
+		ls = append(ls, string(c), string(c)+"9", string(c)+"a-_", string(c)+"a!!", string(c)+"azz", string(c)+"a00", string(c)+"a01rest", string(c)+"aZ9q")
+	}
+	return ls
+}
+
+// dfHandlerLine: sessions 0 (a1, pending downstream data) and 1 (a2); then lookups from `from`, each with the given
+// hint letter (T plain / G signed, validated / g signed, not validated), the owner's numbered traffic in between; at
+// the end both sessions must still be served.  `wire`: only names that reach the server's handler as they are spelt.
+func dfHandlerLine(r *Rand, dom string, from string, hint byte, labels []string, qts []int, wire bool) string {
+	b := dsNewBuilder(r, dom)
+	b.open("a1", sadns.ProtocolVersion)
+	b.open("a2", sadns.ProtocolVersion)
+	b.write(0, []byte("keep"))
+	seq, ack := uint16(0), uint16(65535)
+	for i, l := range labels {
+		name := dom + "."
+		if l != "" {
+			name = l + "." + name
+		}
+		if i%7 == 3 {
+			name = strings.ToUpper(name)
+		}
+		qt := qts[(i+int(hint))%len(qts)]
+		if wire && !dsNameSurvivesWire(name, uint16(qt)) {
+			continue
+		}
+		b.msg(from, qt, []byte(name), hint)
+		if i%5 == 4 {
+			b.packet("a2", 1, ack, &util.Packet{SeqNo: seq, Data: []byte(fmt.Sprintf("up-%d", seq))}, 40)
+			seq++
+			ack++
+		}
+	}
+	b.packet("a1", 0, 65535, nil, 40)
+	b.packet("a2", 1, ack, nil, 40)
+	return b.line()
+}
+
+// dfWireOK: does every query of the line reach the server's handler as the line spells it (name survives the wire
+// format), and is every answer small enough for one UDP datagram?
+func dfWireOK(line string) bool {
+	perAddr := map[string]int{}
+	for _, t := range strings.Fields(line) {
+		f := strings.Split(t, ":")
+		if len(f) == 5 && f[0] == "m" {
+			// miekg closes a TCP connection after 128 queries; a new connection is a new source address
+			if perAddr[f[1]]++; perAddr[f[1]] > 120 {
+				return false
+			}
+			n, err := unhex(f[3])
+			qt, err2 := strconv.Atoi(f[2])
+			if err != nil || err2 != nil || !dsNameSurvivesWire(string(n), uint16(qt)) {
+				return false
+			}
+		}
+		if f[0] == "x" || f[0] == "[" {
+			return false
+		}
+	}
+	return true
+}
+
+func dfHandlerGen(r *Rand, tier string, doms []string, emit func(string)) {
+	labels := dfLookupLabels()
+	lookupTypes := []int{1, 28, 15, 16, 5, 6, 255, 2, 33, int(util.QueryTypeNull)}
+	thorough := tier == "thorough"
+	// direct: every label x sender x TSIG status through handleRequest with a fake writer
+	for di, dom := range doms {
+		for _, from := range []string{"a3", "a1", "a2"} {
+			for _, hint := range []byte{'T', 'G', 'g'} {
+				if !thorough && (di+int(hint)+int(from[1]))%3 != 0 {
+					continue
+				}
+				emit("srv " + dfHandlerLine(r, dom, from, hint, labels, lookupTypes, false))
+			}
+		}
+	}
+	// signed queries for every message class of the other generators: the spike names, a valid packet for every record
+	// type, well-formed commands from the wrong address, random histories
+	sign := func(line string, hint byte) string {
+		toks := strings.Fields(line)
+		for i, t := range toks {
+			if strings.HasPrefix(t, "m:") && strings.HasSuffix(t, ":T") {
+				toks[i] = t[:len(t)-1] + string(hint)
+			}
+		}
+		return strings.Join(toks, " ")
+	}
+	strays := dfStrayVariants()
+	nSigned := 40
+	if thorough {
+		nSigned = len(strays)
+	}
+	for i := 0; i < nSigned; i++ {
+		v := strays[(i*7)%len(strays)]
+		if thorough {
+			v = strays[i]
+		}
+		emit(sign(dfStrayScenario(r, doms[i%2], []string{"a2", "a3", "a1"}[i%3], v), "Gg"[i%2]))
+	}
+	for i := 0; i < nSigned; i++ {
+		emit(sign("srv "+dsHistory(r, doms[r.Intn(len(doms))], 4+r.Intn(30)), "Gg"[i%2]))
+	}
+	// net: the same classes through a real socket to the real communicator's server, udp and tcp
+	for ni, network := range []string{"udp", "tcp"} {
+		for di, dom := range doms {
+			if !thorough && di != ni {
+				continue
+			}
+			for fi, from := range []string{"a3", "a1"} {
+				hint := byte('T')
+				if from == "a1" {
+					hint = 'G'
+				}
+				// (a TCP connection serves 128 queries: the labels go in two halves)
+				half := len(labels) / 2
+				part := labels[:half]
+				if (fi+ni)%2 == 1 {
+					part = labels[half:]
+				}
+				if thorough {
+					emit("net " + network + " " + dfHandlerLine(r, dom, from, hint, labels[:half], lookupTypes, true))
+					part = labels[half:]
+				}
+				emit("net " + network + " " + dfHandlerLine(r, dom, from, hint, part, lookupTypes, true))
+			}
+		}
+		// well-formed commands that do not belong, and random histories
+		want := 2
+		if thorough {
+			want = 60
+		}
+		for i, got := 0, 0; got < want && i < 20*want; i++ {
+			var line string
+			if i%2 == 0 {
+				v := strays[r.Intn(len(strays))]
+				if strings.HasPrefix(v.what, "r/6") {
+					continue // answers of 64 KiB do not fit a datagram
+				}
+				line = strings.TrimPrefix(dfStrayScenario(r, doms[i%2], []string{"a2", "a3", "a1"}[i%3], v), "srv ")
+			} else {
+				line = dsHistory(r, doms[r.Intn(2)], 4+r.Intn(25))
+			}
+			if !dfWireOK(line) || strings.Contains(line, "!big") {
+				continue
+			}
+			got++
+			emit("net " + network + " " + line)
+		}
 	}
 }
